@@ -79,7 +79,7 @@ func ruleC11(c *Check) {
 	c.expiredBatchRules("C11", map[string]bool{"dequeue": true, "continuation": true, "delete-after-dequeue": true, "dequeue-before-enqueue": true})
 	c.startRules("C11")
 	c.heightSkeletons("C11.5")
-	c.contextFieldRules("C11", map[string]bool{"update": true})
+	c.contextFieldRules("C11", map[string]bool{"update": true, "batchstate": true, "state": true})
 	c.requestValidation("C11.5")
 	c.contextDeleters("C11")
 	c.queueDeleters("C11")
@@ -190,7 +190,7 @@ func (c *Check) reconstruction(rule string) {
 
 // requestValidation (C10.3): the stateless validators guarantee frequency ≥ timeout and timeout > 0.
 func (c *Check) requestValidation(rule string) {
-	f := c.mustFn(rule, "types.ValidateRequest")
+	f := c.mustFn(rule, c.typesName("ValidateRequest"))
 	if f == nil {
 		return
 	}
@@ -234,7 +234,7 @@ func (c *Check) requestValidation(rule string) {
 	}
 	c.req(bad == "" && n >= 2, rule, f.Name, f.Body.Pos(), "stateless validation: timeout > 0, and for repeated requests frequency = 0 (defaulted to the timeout) or frequency ≥ timeout"+condStr(bad != "", ": "+bad))
 	// the update validator excludes negative timeouts (used by the update rule to discard that case)
-	if g := c.mustFn(rule, "types.ValidateRequestContextUpdating"); g != nil {
+	if g := c.mustFn(rule, c.typesName("ValidateRequestContextUpdating")); g != nil {
 		var tq string
 		for i, pr := range g.Params {
 			if typeName(pr.Type()) == "int64" && tq == "" {
@@ -263,6 +263,16 @@ func (c *Check) callbackRules(prefix string) {
 		c.undecided(prefix+".callback", "helpers", token.NoPos, "complete / pause-for-funds helpers not found")
 		return
 	}
+	// the positions of the context and of its id among the complete function's parameters
+	ctxP, idP := "P1", "P2"
+	for i, pr := range cf.Params {
+		if namedStruct(pr.Type()) == "RequestContext" {
+			ctxP = fmt.Sprintf("P%d", i)
+		}
+		if isByteSlice(pr.Type()) {
+			idP = fmt.Sprintf("P%d", i)
+		}
+	}
 	// response callback variants reachable from the complete function
 	sum := c.P.SummaryOf(cf)
 	nNil, nErr := 0, 0
@@ -271,7 +281,7 @@ func (c *Check) callbackRules(prefix string) {
 			continue
 		}
 		c.Sites++
-		_, mod := hasFact(e.Guards, "(nonempty (.RequestContext.ModuleName P1))", false)
+		_, mod := hasFact(e.Guards, "(nonempty (.RequestContext.ModuleName "+ctxP+"))", false)
 		c.req(mod, prefix+".callback.dispatch", effConstruct(cf.Name, e), e.Pos, "the response callback is invoked only for a context with an owning module")
 		if len(e.Args) != 5 {
 			c.fail(prefix+".callback.args", effConstruct(cf.Name, e), e.Pos, "unexpected callback arity")
@@ -279,7 +289,7 @@ func (c *Check) callbackRules(prefix string) {
 		}
 		outs, errArg := e.Args[3], e.Args[4]
 		// outputs = GetResponseOutputs(id, BatchCounter of the stored context)
-		okOut := outs.Op != "" && strings.Contains(outs.String(), ".RequestContext.BatchCounter") && e.Args[2].IsAt("P2")
+		okOut := outs.Op != "" && strings.Contains(outs.String(), ".RequestContext.BatchCounter") && e.Args[2].IsAt(idP)
 		c.req(okOut, prefix+".callback.outputs", effConstruct(cf.Name, e)+condStr(errArg.IsAt("#nil") || errArg.IsAt("zero"), "#ok")+condStr(!(errArg.IsAt("#nil") || errArg.IsAt("zero")), "#err"), e.Pos,
 			"the callback receives the outputs of the context's current batch: "+shortTerm(outs))
 		lt := fmt.Sprintf("(< (len %s) (conv int (.RequestContext.BatchResponseThreshold ", outs)
@@ -342,7 +352,7 @@ func (c *Check) callbackRules(prefix string) {
 					}
 				}
 			}
-			_, mod := hasFact(pa.AllFacts(), "(nonempty (.RequestContext.ModuleName P1))", false)
+			_, mod := hasFact(pa.AllFacts(), "(nonempty (.RequestContext.ModuleName "+ctxP+"))", false)
 			want := 0
 			if mod {
 				want = 1
@@ -474,9 +484,9 @@ func (c *Check) cleanRules(rule string) {
 				k16 = keyArgs(e)[0]
 			}
 		}
-		ok := k13 != nil && k16 != nil && k13.Eq(k16)
+		ok := k13 != nil && k16 != nil && termsEq(k13, k16)
 		if ok {
-			_, ok = k13.Match("(slice $K #1 _)")
+			_, ok = stripConv(k13).Match("(slice $K #1 _)")
 			ok = ok && c.P.scansFamily(k13, "0x13")
 		}
 		c.req(ok, rule, unitConstruct(clean, "per-key"), pa.RetPos, "each iteration deletes the request and the response stored under the scanned request key's id")
